@@ -1,16 +1,28 @@
 (** The proof-combination helpers of prove.go ([Model.ProofOps]: mirrors of [AddProof],
     [GetProofSubset], [GetMissingPositions]) against the reference forest (property C14).
+    Everything holds for every slot list [s] with [length s <= 2^63] and every hash type with a
+    correct [op_eqb]; G3 also needs the non-zero-hash hypotheses of [CalcComplete.calc_complete].
 
-    Part 0   specifications of the two-pointer helpers on ascending lists
-             ([subtractSortedSlice], [mergeSortedSlices], [subtractSortedHashAndPos],
-             [getHashAndPosSubset], [mergeSortedHashAndPos]) and of [sortN];
-    Part 1   [ProofPositions] on the positions of distinct leaf nodes returns BOTH the canonical
-             proof positions and the computable positions of the reference ([po_pp_both]);
-    Part 2   G1 [missing_spec]: [GetMissingPositionsFn] = the oracle's [exp_missing];
-    Part 3   the hash valuation of the reference forest, lists that are graphs of it;
-    Part 4   G2 [addproof_spec]: [AddProof] of two canonical proofs = the expected cached proof of
-             the union;
-    Part 5   G3 [subset_spec], [subset_uncovered]: [GetProofSubset]. *)
+    Part 0   the two-pointer helpers on ascending lists: [subtractSortedSlice_spec] (= filter),
+             [mergeSortedSlices_spec] (strictly ascending union), [subtractSortedHashAndPos_spec],
+             [getHashAndPosSubset_spec], [sortN_spec];
+    Part 1   [po_pp_both]: [ProofPositions] on the ascending positions of distinct leaf nodes
+             returns BOTH the canonical proof positions and the computable positions of the
+             reference ([canon_proof_pos], [computable_pos]);
+    Part 2   G1 [missing_spec]: [GetMissingPositionsFn] = the oracle's [exp_missing]
+             (positions of [have]/[want] in any order);
+    Part 3   lists that are graphs of a valuation [F : N -> H]; [addproof_graph];
+    Part 4   the valuation [Fv] of the reference forest; G2 [addproof_spec], [addproof_cached]:
+             [AddProof] of two canonical proofs = [exp_cached] of any duplicate-free list of the
+             union;
+    Part 5   G3 [subset_uncovered] (error when a requested position is not a target - for ANY
+             inputs), [subset_spec] (hashes in the order of [wants], [wants], canonical proof),
+             [subset_error_iff].
+
+    Duplicate-free requests are NECESSARY (witnesses in the 7-slot forest [ls_ex], by computation:
+    [po_dup_witnesses]): a repeated desired position makes [GetMissingPositions] drop a position,
+    a repeated target survives [AddProof], a repeated wanted position makes [GetProofSubset] fail
+    although it is covered. *)
 From Utreexo Require Import Base.Hash Model.Utils Model.UtilsFast Model.Verify Model.ProofOps
   Spec.Forest Spec.Oracle Spec.Geometry Spec.Term
   Proofs.UtilsGeom Proofs.UtilsGeom2 Proofs.SpecBasics Proofs.LayoutStruct Proofs.ProofPosSpec
@@ -133,6 +145,11 @@ Qed.
 Theorem mergeSortedSlices_spec a b : SSlt a -> SSlt b ->
   SSlt (mergeSortedSlices a b) /\ (forall x, In x (mergeSortedSlices a b) <-> In x a \/ In x b).
 Proof. intros Ha Hb. apply po_mergeN_spec; [lia|exact Ha|exact Hb]. Qed.
+
+Example po_helpers_ex :
+  subtractSortedSlice [1; 3; 4; 7; 9] [0; 3; 3; 8; 9] = [1; 4; 7] /\
+  mergeSortedSlices [1; 3; 7] [0; 3; 8] = [0; 1; 3; 7; 8].
+Proof. split; vm_compute; reflexivity. Qed.
 
 (** ** [sortN]: ascending, a permutation; strictly ascending on duplicate-free input; the result
     depends on the set only *)
@@ -409,17 +426,66 @@ Section RefPP.
       exists d. split; [exact Hd|]. symmetry. apply po_pos_g.
   Qed.
 
-  Lemma po_canon_pos_SSlt : SSlt (canon_proof_pos R lay tsn).
+  Corollary po_pp_both_fast :
+    ProofPositions_fast (sortN (map (npos R) tsn)) n total =
+    (canon_proof_pos R lay tsn, computable_pos R lay tsn).
+  Proof. etransitivity; [apply ProofPositions_fast_eq|exact po_pp_both]. Qed.
+
+  Lemma po_proof_coord_is_node c : In c (proof_coords lay tsn) -> is_node c.
   Proof.
-    unfold canon_proof_pos.
-    apply (po_sort_coords_keys (proof_coords lay tsn) (RefTheory.proof_coords_NoDup H lay tsn)).
-    intros c Hc. apply RefTheory.proof_coords_In in Hc as (d & Hd & Hr & _ & ->).
+    intros Hc. apply RefTheory.proof_coords_In in Hc as (d & Hd & Hr & _ & ->).
     destruct (po_known_is_node d Hd) as (y & Hy & Ey).
     rewrite (rt_is_root_coord H HO s Hn63 tsn Hts_lay d Hd), <- Ey in Hr.
     pose proof (rf_nonroot H HO s y Hy Hr) as Hnr.
     destruct (node_sibling H HO s _ _ y (tnode_in H HO s y Hy) Hnr) as (p & sb & _ & Hsb & _).
     apply tnode_some in Hsb as (Hsb & Esr & Eso). exists sb. split; [exact Hsb|].
     apply cN_inj in Ey. subst d. unfold ncrd, sib_coord. cbn [fst snd]. rewrite Esr, Eso. reflexivity.
+  Qed.
+
+  Lemma po_canon_pos_SSlt : SSlt (canon_proof_pos R lay tsn).
+  Proof.
+    unfold canon_proof_pos.
+    apply (po_sort_coords_keys (proof_coords lay tsn) (RefTheory.proof_coords_NoDup H lay tsn)).
+    exact po_proof_coord_is_node.
+  Qed.
+
+  Lemma po_comp_pos_keys :
+    SSlt (computable_pos R lay tsn) /\
+    (forall p, In p (computable_pos R lay tsn) <->
+               exists c, In c anc_coords /\ p = pos R (fst c) (snd c)).
+  Proof.
+    unfold computable_pos. fold anc_coords.
+    apply (po_sort_coords_keys anc_coords po_anc_coords_NoDup).
+    intros c Hc. apply po_anc_coords_In in Hc as [Hc _]. apply po_known_is_node, Hc.
+  Qed.
+
+  (** the targets and the computable positions together: the positions of [K] *)
+  Lemma po_known_pos p :
+    (In p (map (npos R) tsn) \/ In p (computable_pos R lay tsn)) <->
+    exists d, In d K /\ p = pos R (fst d) (snd d).
+  Proof.
+    rewrite (proj2 po_comp_pos_keys). split.
+    - intros [Hp|(c & Hc & ->)].
+      + apply in_map_iff in Hp as (x & <- & Hx). exists (nrow x, noff x).
+        split; [apply RefTheory.known_set_target, Hx|reflexivity].
+      + apply po_anc_coords_In in Hc as [Hc _]. exists c. auto.
+    - intros (d & Hd & ->).
+      destruct (mem_coord d (map (fun x : node H => (nrow x, noff x)) tsn)) eqn:E.
+      + left. apply RefTheory.mem_coord_In in E. apply in_map_iff in E as (x & <- & Hx).
+        apply in_map_iff. exists x. split; [reflexivity|exact Hx].
+      + right. exists d. split; [|reflexivity]. apply po_anc_coords_In.
+        split; [exact Hd|]. apply RefTheory.mem_coord_false, E.
+  Qed.
+
+  Lemma po_canon_pos_In p : In p (canon_proof_pos R lay tsn) <->
+    exists d, In d K /\ is_root_coord lay d = false /\ ~ In (sib_coord d) K /\
+              p = pos R (fst (sib_coord d)) (snd (sib_coord d)).
+  Proof.
+    rewrite RefTheory.canon_proof_pos_In. split.
+    - intros (c & Hc & ->). apply RefTheory.proof_coords_In in Hc as (d & Hd & Hr & Hn & ->).
+      exists d. auto.
+    - intros (d & Hd & Hr & Hn & ->). exists (sib_coord d). split; [|reflexivity].
+      apply RefTheory.proof_coords_In. exists d. auto.
   Qed.
 
   Lemma po_targets_NoDup : NoDup (map (npos R) tsn).
@@ -443,6 +509,13 @@ Section Missing.
   Local Notation total := (TreeRows (N.of_nat (length s))).
   Local Notation R := (rows_of (num_leaves s)).
   Local Notation lay := (layout HO s).
+
+  Lemma po_canon_pos_nil (rows : nat) (l : list (node H)) : canon_proof_pos rows l [] = [].
+  Proof. reflexivity. Qed.
+
+  Lemma po_match_nil (X body r : list N) : (X = [] -> r = []) -> body = r ->
+    match X with [] => [] | _ :: _ => body end = r.
+  Proof. intros Hn Hb. destruct X; [symmetry; apply Hn; reflexivity|exact Hb]. Qed.
 
   Lemma po_filter_NoDup {A} (f : A -> bool) l : NoDup l -> NoDup (filter f l).
   Proof.
@@ -475,7 +548,7 @@ Section Missing.
     pose proof (po_targets_NoDup H HO s th Lh Nh) as NDh. fold hp in NDh.
     pose proof (po_targets_NoDup H HO s tw Lw Nw) as NDw.
     pose proof (po_targets_NoDup H HO s tw' Lw' Nw') as NDw'.
-    unfold GetMissingPositionsFn.
+    unfold GetMissingPositionsFn. cbv zeta.
     rewrite (po_sortN_perm tH hp NDh PH), (po_sortN_perm tW _ NDw PW).
     assert (E2 : subtractSortedSlice (sortN (map (npos R) tw)) (sortN hp)
                  = sortN (map (npos R) tw')).
@@ -490,14 +563,13 @@ Section Missing.
       - intros Hx. apply in_map_iff in Hx as (y & <- & Hy). apply filter_In in Hy as [Hy Hm].
         split; [apply in_map, Hy|]. apply po_memN_false, Bool.negb_true_iff, Hm. }
     rewrite E2. clear E2.
-    destruct (sortN (map (npos R) tw')) as [|a l] eqn:Edes.
-    - assert (Etw : tw' = []).
+    symmetry. apply po_match_nil.
+    - intros Edes. assert (Etw : tw' = []).
       { pose proof (pps_sortN_perm (map (npos R) tw')) as P. rewrite Edes in P.
         apply Permutation_nil in P. apply map_eq_nil in P. exact P. }
-      rewrite Etw. reflexivity.
-    - rewrite <- Edes. clear a l Edes. rewrite !ProofPositions_fast_eq.
-      rewrite (po_pp_both H HO s Hn63 tw' Lw' Fw' Nw'). unfold hp.
-      rewrite (po_pp_both H HO s Hn63 th Lh Fh Nh). cbv beta iota. fold hp.
+      rewrite Etw, po_canon_pos_nil. reflexivity.
+    - rewrite (po_pp_both_fast H HO s Hn63 tw' Lw' Fw' Nw'). unfold hp.
+      rewrite (po_pp_both_fast H HO s Hn63 th Lh Fh Nh). cbv beta iota. fold hp. symmetry.
       rewrite subtractSortedSlice_spec;
         [|apply (po_canon_pos_SSlt H HO s Hn63 tw' Lw')|apply pps_sortN_sorted].
       apply filter_ext. intros p. f_equal. apply po_memN_ext. intros y.
@@ -527,3 +599,697 @@ Section Missing.
 End Missing.
 
 Print Assumptions missing_spec.
+
+(** non-vacuity: slots [Atom 1; -; Atom 3; Atom 4; -; -; Atom 7]; holding the proof of [Atom 7]
+    (position 6), asking for [Atom 4] and [Atom 7] (positions 3, 6): the sibling 2 and the
+    uncle 8 are missing *)
+Lemma po_ex_nodup (l : list term) : list_eqb term_eqb l l = true ->
+  (fix nd (l : list term) : bool :=
+     match l with [] => true | x :: t => negb (memH term_ops x t) && nd t end) l = true -> NoDup l.
+Proof.
+  intros _. induction l as [|x l IH]; intros E; [constructor|].
+  apply andb_true_iff in E as [E1 E2]. constructor; [|exact (IH E2)].
+  intros Hin. apply (memH_In term term_ops term_ops_ok) in Hin. rewrite Hin in E1. discriminate.
+Qed.
+
+Example missing_ex :
+  GetMissingPositionsFn 7 [6] [3; 6] = [2; 8] /\
+  exp_missing term_ops (mk_ctx term_ops ls_ex) [Atom 7] [Atom 4; Atom 7]
+    = Some (GetMissingPositionsFn 7 [6] [3; 6]).
+Proof.
+  split; [vm_compute; reflexivity|].
+  eapply (missing_spec term term_ops term_ops_ok ls_ex ex_cc_bound [Atom 7] [Atom 4; Atom 7]).
+  - apply po_ex_nodup; reflexivity.
+  - apply po_ex_nodup; reflexivity.
+  - vm_compute. reflexivity.
+  - vm_compute. reflexivity.
+  - vm_compute. apply Permutation_refl.
+  - vm_compute. apply Permutation_refl.
+Qed.
+
+(** * 3. Lists of (position, hash) that are graphs of a valuation [F : N -> H] *)
+
+Section Graph.
+  Variable H : Type.
+  Variable HO : ops H.
+  Variable F : N -> H.
+  Local Notation hp := (hp H).
+
+  Definition graph (l : list hp) : Prop := forall e, In e l -> snd e = F (fst e).
+  Definition gr (ps : list N) : list hp := map (fun p => (p, F p)) ps.
+
+  Lemma po_graph_eq l : graph l -> l = gr (map fst l).
+  Proof.
+    unfold gr. induction l as [|e l IH]; intros Hg; [reflexivity|]. cbn [map]. f_equal.
+    - destruct e as [p h]. cbn [fst]. f_equal. exact (Hg (p, h) (or_introl eq_refl)).
+    - apply IH. intros e' He'. apply Hg. right. exact He'.
+  Qed.
+
+  Lemma po_graph_snd l : graph l -> map snd l = map F (map fst l).
+  Proof.
+    intros Hg. rewrite map_map. apply map_ext_in. intros e He. exact (Hg e He).
+  Qed.
+
+  Lemma po_gr_graph ps : graph (gr ps).
+  Proof. intros e He. apply in_map_iff in He as (p & <- & _). reflexivity. Qed.
+
+  Lemma po_gr_fst ps : map fst (gr ps) = ps.
+  Proof. unfold gr. rewrite map_map. cbn [fst]. apply map_id. Qed.
+
+  Lemma po_zip_gr ps : zip_hp ps (map F ps) = gr ps.
+  Proof. induction ps as [|p ps IH]; [reflexivity|]. cbn [map zip_hp gr]. f_equal. exact IH. Qed.
+
+  Lemma po_graph_sortK l : graph l -> graph (sortK l).
+  Proof. intros Hg e He. apply (proj1 (cs_sortK_in e l)) in He. exact (Hg e He). Qed.
+
+  Lemma po_graph_filter (f : hp -> bool) l : graph l -> graph (filter f l).
+  Proof. intros Hg e He. apply filter_In in He. apply Hg, He. Qed.
+
+  Lemma po_graph_merge a b : graph a -> graph b -> SSlt (map fst a) -> SSlt (map fst b) ->
+    graph (mergeSortedHashAndPos a b).
+  Proof.
+    intros Ga Gb Sa Sb e He.
+    destruct (cc_mergeSorted_spec H a b Sa Sb) as (_ & _ & Hin).
+    destruct (Hin e He) as [Ha|Hb]; [exact (Ga e Ha)|exact (Gb e Hb)].
+  Qed.
+
+  (** the keys of [sortK l] for duplicate-free keys: [sortN] of the keys *)
+  Lemma po_sortK_keys (l : list hp) : NoDup (map fst l) -> map fst (sortK l) = sortN (map fst l).
+  Proof.
+    intros Hnd. symmetry. apply pps_sortN_unique; [apply cc_sortK_SSlt, Hnd|exact Hnd|].
+    intros x. split; apply Permutation_in, Permutation_map;
+      [apply RefTheory.sortK_perm|apply Permutation_sym, RefTheory.sortK_perm].
+  Qed.
+
+  Lemma po_sortK_gr ps : NoDup ps -> sortK (gr ps) = gr (sortN ps).
+  Proof.
+    intros Hnd. rewrite (po_graph_eq (sortK (gr ps)) (po_graph_sortK _ (po_gr_graph ps))).
+    rewrite po_sortK_keys, po_gr_fst; [reflexivity|]. rewrite po_gr_fst. exact Hnd.
+  Qed.
+
+  (** merging two ascending graphs: the graph of the merged keys *)
+  Lemma po_merge_gr a b : SSlt a -> SSlt b ->
+    mergeSortedHashAndPos (gr a) (gr b) = gr (mergeSortedSlices a b).
+  Proof.
+    intros Sa Sb.
+    assert (Sa' : SSlt (map fst (gr a))) by (rewrite po_gr_fst; exact Sa).
+    assert (Sb' : SSlt (map fst (gr b))) by (rewrite po_gr_fst; exact Sb).
+    rewrite (po_graph_eq _ (po_graph_merge _ _ (po_gr_graph a) (po_gr_graph b) Sa' Sb')). f_equal.
+    destruct (cc_mergeSorted_spec H (gr a) (gr b) Sa' Sb') as (HS & HM & _).
+    destruct (mergeSortedSlices_spec a b Sa Sb) as [HS2 HM2].
+    apply pps_SSlt_ext; [exact HS|exact HS2|]. intros x. rewrite HM, HM2, !po_gr_fst. reflexivity.
+  Qed.
+
+  Lemma po_filter_gr (f : N -> bool) ps :
+    filter (fun e : hp => f (fst e)) (gr ps) = gr (filter f ps).
+  Proof.
+    unfold gr. induction ps as [|p ps IH]; [reflexivity|]. cbn [map filter fst].
+    destruct (f p); cbn [map]; rewrite IH; reflexivity.
+  Qed.
+
+  Lemma po_sub_gr a b : SSlt a -> SSle b ->
+    subtractSortedHashAndPos (gr a) b = gr (subtractSortedSlice a b).
+  Proof.
+    intros Sa Sb. rewrite subtractSortedHashAndPos_spec; [|rewrite po_gr_fst; exact Sa|exact Sb].
+    rewrite subtractSortedSlice_spec by assumption.
+    exact (po_filter_gr (fun x => negb (memN x b)) a).
+  Qed.
+
+  Lemma po_subset_gr a b : SSlt a -> SSle b ->
+    getHashAndPosSubset (gr a) b = gr (filter (fun x => memN x b) a).
+  Proof.
+    intros Sa Sb. rewrite getHashAndPosSubset_spec; [|rewrite po_gr_fst; exact Sa|exact Sb].
+    exact (po_filter_gr (fun x => memN x b) a).
+  Qed.
+
+  Lemma po_gr_snd ps : map snd (gr ps) = map F ps.
+  Proof. unfold gr. rewrite map_map. reflexivity. Qed.
+
+  Lemma po_gr_length ps : length (gr ps) = length ps.
+  Proof. apply map_length. Qed.
+
+  (** ** [AddProof] on graphs: everything is computed on the keys *)
+  Theorem addproof_graph (n : N) (tA tB ppA calcA ppB calcB : list N) :
+    NoDup tA -> NoDup tB ->
+    ProofPositions_fast (sortN tA) n (TreeRows n) = (ppA, calcA) ->
+    ProofPositions_fast (sortN tB) n (TreeRows n) = (ppB, calcB) ->
+    SSlt ppA -> SSlt ppB -> SSlt calcA -> SSlt calcB ->
+    let TC := mergeSortedSlices (sortN tA) (sortN tB) in
+    let PC := subtractSortedSlice
+                (subtractSortedSlice (mergeSortedSlices ppA ppB) (mergeSortedSlices calcA calcB)) TC in
+    AddProof tA (map F ppA) tB (map F ppB) (map F tA) (map F tB) n
+    = Some (map F TC, TC, map F PC).
+  Proof.
+    intros NA NB EA EB SpA SpB ScA ScB TC PC. subst PC. unfold AddProof. cbv zeta. rewrite EA, EB.
+    fold TC.
+    unfold same_len. rewrite !map_length, !Nat.eqb_refl. cbn [andb negb].
+    rewrite !po_zip_gr.
+    pose proof (pps_sortN_NoDup_SSlt tA NA) as STA. pose proof (pps_sortN_NoDup_SSlt tB NB) as STB.
+    destruct (mergeSortedSlices_spec ppA ppB SpA SpB) as [Spp _].
+    destruct (mergeSortedSlices_spec calcA calcB ScA ScB) as [Scc _].
+    destruct (mergeSortedSlices_spec _ _ STA STB) as [STC _]. fold TC in STC.
+    rewrite (po_merge_gr ppA ppB SpA SpB).
+    rewrite (po_sub_gr _ _ Spp (po_SSlt_SSle _ Scc)).
+    rewrite (po_sub_gr _ TC (subtractSortedSlice_sorted _ _ Spp (po_SSlt_SSle _ Scc))
+                       (po_SSlt_SSle _ STC)).
+    rewrite (po_sortK_gr tA NA), (po_sortK_gr tB NB), (po_merge_gr _ _ STA STB).
+    rewrite !po_gr_snd. reflexivity.
+  Qed.
+End Graph.
+
+(** * 4. The hash valuation of the reference forest; G2: [AddProof] *)
+
+Section RefVal.
+  Variable H : Type.
+  Variable HO : ops H.
+  Hypothesis HOK : ops_ok HO.
+  Variable s : slots H.
+  Hypothesis Hn63 : N.of_nat (length s) <= 2 ^ 63.
+
+  Local Notation n := (N.of_nat (length s)).
+  Local Notation total := (TreeRows (N.of_nat (length s))).
+  Local Notation R := (rows_of (num_leaves s)).
+  Local Notation lay := (layout HO s).
+
+  (** the hash the reference stores at a position *)
+  Definition Fv (p : N) : H := hash_at HO R lay p.
+
+  Lemma po_Fv_node x : In x lay -> Fv (npos R x) = nhash x.
+  Proof.
+    intros Hx. unfold Fv, hash_at. destruct (find_pos R lay (npos R x)) as [y|] eqn:E.
+    - apply find_pos_some in E as [Hy Ey].
+      rewrite (RefTheory.layout_npos_inj H HO s y x Hy Hx Ey). reflexivity.
+    - exfalso. exact (proj1 (find_pos_none H R lay (npos R x)) E x Hx eq_refl).
+  Qed.
+
+  Lemma po_Fv_coord c : is_node H HO s c ->
+    match find_coord lay (fst c) (snd c) with Some x => nhash x | None => op_empty HO end
+    = Fv (pos R (fst c) (snd c)).
+  Proof.
+    intros (y & Hy & Ey). apply cN_inj in Ey. subst c. cbn [fst snd].
+    change (find_coord lay (nrow y) (noff y)) with (tnode HO s (nrow y) (noff y)).
+    rewrite (tnode_in H HO s y Hy). symmetry. exact (po_Fv_node y Hy).
+  Qed.
+
+  Lemma po_hashes_Fv xs : (forall x, In x xs -> In x lay) ->
+    map (@nhash H) xs = map Fv (map (npos R) xs).
+  Proof.
+    intros Hxs. rewrite map_map. apply map_ext_in. intros x Hx. symmetry. apply po_Fv_node, Hxs, Hx.
+  Qed.
+
+  Lemma po_canon_hashes_Fv tsn : (forall x, In x tsn -> In x lay) ->
+    canon_proof_hashes HO R lay tsn = map Fv (canon_proof_pos R lay tsn).
+  Proof.
+    intros Hts. unfold canon_proof_hashes, canon_proof_pos. rewrite map_map.
+    apply map_ext_in. intros e He. apply RefTheory.sort_coords_In in He as (c & Hc & ->).
+    cbn [fst snd]. apply po_Fv_coord. exact (po_proof_coord_is_node H HO s Hn63 tsn Hts c Hc).
+  Qed.
+
+  (** ** requests *)
+  Lemma po_find_leaves_each : forall hs ts, find_leaves HO lay hs = Some ts ->
+    forall h, In h hs -> exists x, find_leaf HO lay h = Some x.
+  Proof.
+    induction hs as [|a hs IH]; intros ts Hf h Hh; [destruct Hh|].
+    apply (RefTheory.find_leaves_cons H HO) in Hf as (x & xs & Hx & Hxs & ->).
+    destruct Hh as [<-|Hh]; [exists x; exact Hx|exact (IH xs Hxs h Hh)].
+  Qed.
+
+  Lemma po_find_leaves_some : forall hs, (forall h, In h hs -> exists x, find_leaf HO lay h = Some x) ->
+    exists ts, find_leaves HO lay hs = Some ts.
+  Proof.
+    induction hs as [|a hs IH]; intros Hall; [exists []; reflexivity|].
+    destruct (Hall a (or_introl eq_refl)) as [x Hx].
+    destruct (IH (fun h Hh => Hall h (or_intror Hh))) as [xs Hxs].
+    exists (x :: xs). apply (RefTheory.find_leaves_cons H HO). exists x, xs. auto.
+  Qed.
+
+  (** the nodes of an [exp_cached] answer: the requested nodes in ascending position order *)
+  Definition sort_nodes (ts : list (node H)) : list (node H) :=
+    map snd (sortK (map (fun x => (npos R x, x)) ts)).
+
+  Lemma po_sort_nodes_perm ts : Permutation (sort_nodes ts) ts.
+  Proof.
+    unfold sort_nodes. eapply Permutation_trans; [apply Permutation_map, RefTheory.sortK_perm|].
+    rewrite map_map. cbn [snd]. rewrite map_id. apply Permutation_refl.
+  Qed.
+
+  Lemma po_sort_nodes_pos ts : (forall x, In x ts -> In x lay) -> NoDup ts ->
+    map (npos R) (sort_nodes ts) = sortN (map (npos R) ts).
+  Proof.
+    intros Hl Hnd. unfold sort_nodes. rewrite map_map.
+    set (L := map (fun x => (npos R x, x)) ts).
+    assert (HL : map fst L = map (npos R) ts) by (unfold L; rewrite map_map; reflexivity).
+    assert (Hent : Forall (fun e : N * node H => fst e = npos R (snd e)) (sortK L)).
+    { apply cs_sortK_Forall. unfold L. apply Forall_forall. intros e He.
+      apply in_map_iff in He as (x & <- & _). reflexivity. }
+    transitivity (map fst (sortK L)).
+    - apply map_ext_in. intros e He. rewrite Forall_forall in Hent. symmetry. exact (Hent e He).
+    - rewrite <- HL. apply po_sortK_keys. rewrite HL. exact (po_targets_NoDup H HO s ts Hl Hnd).
+  Qed.
+
+  (** G2.  [A], [B]: duplicate-free requests of live leaves; [(tA, pA)], [(tB, pB)]: the targets
+      (in request order) and the canonical proofs the reference gives for them; [U]: any
+      duplicate-free list whose members are those of [A] and [B].  Then [AddProof] returns the
+      cached proof the oracle expects for [U]: hashes in ascending position order, their
+      positions, the canonical proof. *)
+  Theorem addproof_spec (A B U : list H) (tA tB : list N) (pA pB : list H) :
+    NoDup A -> NoDup B -> NoDup U -> (forall h, In h U <-> In h A \/ In h B) ->
+    exp_prove HO (mk_ctx HO s) A = Some (tA, pA) ->
+    exp_prove HO (mk_ctx HO s) B = Some (tB, pB) ->
+    AddProof tA pA tB pB A B n = exp_cached HO (mk_ctx HO s) U /\
+    exp_cached HO (mk_ctx HO s) U <> None.
+  Proof.
+    intros NA NB NU HU EA EB. unfold exp_prove in EA, EB. cbn [mk_ctx clay crows] in EA, EB.
+    destruct (find_leaves HO lay A) as [tsA|] eqn:FA; [|discriminate].
+    destruct (find_leaves HO lay B) as [tsB|] eqn:FB; [|discriminate].
+    injection EA as <- <-. injection EB as <- <-.
+    destruct (cc_find_leaves_facts HO s A tsA HOK NA FA) as (LA & FlA & NtA & EhA & InA).
+    destruct (cc_find_leaves_facts HO s B tsB HOK NB FB) as (LB & FlB & NtB & EhB & InB).
+    destruct (po_find_leaves_some U) as [tsU FU].
+    { intros h Hh. apply HU in Hh as [Hh|Hh];
+        [exact (po_find_leaves_each A tsA FA h Hh)|exact (po_find_leaves_each B tsB FB h Hh)]. }
+    destruct (cc_find_leaves_facts HO s U tsU HOK NU FU) as (LU & FlU & NtU & EhU & InU).
+    assert (HtsU : forall x, In x tsU <-> In x tsA \/ In x tsB).
+    { intros x. rewrite InU, InA, InB. split.
+      - intros (h & Hh & Hx). apply HU in Hh as [Hh|Hh]; [left|right]; exists h; auto.
+      - intros [(h & Hh & Hx)|(h & Hh & Hx)]; exists h; (split; [apply HU; auto|exact Hx]). }
+    unfold exp_cached. cbn [mk_ctx clay crows]. rewrite FU. split; [|discriminate].
+    fold (sort_nodes tsU).
+    (* inputs as graphs of the valuation *)
+    rewrite (po_canon_hashes_Fv tsA LA), (po_canon_hashes_Fv tsB LB).
+    rewrite <- EhA, <- EhB.
+    rewrite (po_hashes_Fv tsA LA), (po_hashes_Fv tsB LB).
+    pose proof (po_targets_NoDup H HO s tsA LA NtA) as NDA.
+    pose proof (po_targets_NoDup H HO s tsB LB NtB) as NDB.
+    pose proof (po_targets_NoDup H HO s tsU LU NtU) as NDU.
+    rewrite (addproof_graph H Fv n _ _ _ _ _ _ NDA NDB
+               (po_pp_both_fast H HO s Hn63 tsA LA FlA NtA)
+               (po_pp_both_fast H HO s Hn63 tsB LB FlB NtB)
+               (po_canon_pos_SSlt H HO s Hn63 tsA LA) (po_canon_pos_SSlt H HO s Hn63 tsB LB)
+               (proj1 (po_comp_pos_keys H HO s Hn63 tsA LA))
+               (proj1 (po_comp_pos_keys H HO s Hn63 tsB LB))).
+    cbv zeta.
+    pose proof (pps_sortN_NoDup_SSlt _ NDA) as STA. pose proof (pps_sortN_NoDup_SSlt _ NDB) as STB.
+    destruct (mergeSortedSlices_spec _ _ STA STB) as [STC MTC].
+    set (TC := mergeSortedSlices (sortN (map (npos R) tsA)) (sortN (map (npos R) tsB))) in *.
+    (* the targets *)
+    assert (ETC : TC = map (npos R) (sort_nodes tsU)).
+    { rewrite (po_sort_nodes_pos tsU LU NtU). symmetry. apply pps_sortN_unique; [exact STC|exact NDU|].
+      intros p. rewrite MTC, !RefTheory.sortN_In, !in_map_iff. split.
+      - intros [(x & <- & Hx)|(x & <- & Hx)]; exists x; (split; [reflexivity|apply HtsU; auto]).
+      - intros (x & <- & Hx). apply HtsU in Hx as [Hx|Hx]; [left|right]; exists x; auto. }
+    assert (LS : forall x, In x (sort_nodes tsU) -> In x lay).
+    { intros x Hx. apply LU. exact (Permutation_in _ (po_sort_nodes_perm tsU) Hx). }
+    (* the proof positions *)
+    destruct (mergeSortedSlices_spec _ _ (po_canon_pos_SSlt H HO s Hn63 tsA LA)
+                (po_canon_pos_SSlt H HO s Hn63 tsB LB)) as [Spp Mpp].
+    destruct (mergeSortedSlices_spec _ _ (proj1 (po_comp_pos_keys H HO s Hn63 tsA LA))
+                (proj1 (po_comp_pos_keys H HO s Hn63 tsB LB))) as [Scc Mcc].
+    set (PP := mergeSortedSlices (canon_proof_pos R lay tsA) (canon_proof_pos R lay tsB)) in *.
+    set (CC := mergeSortedSlices (computable_pos R lay tsA) (computable_pos R lay tsB)) in *.
+    assert (EPC : subtractSortedSlice (subtractSortedSlice PP CC) TC = canon_proof_pos R lay tsU).
+    { pose proof (subtractSortedSlice_sorted _ _ Spp (po_SSlt_SSle _ Scc)) as S1.
+      apply pps_SSlt_ext;
+        [apply subtractSortedSlice_sorted; [exact S1|apply po_SSlt_SSle, STC]
+        |apply (po_canon_pos_SSlt H HO s Hn63 tsU LU)|].
+      intros p.
+      rewrite (subtractSortedSlice_In _ _ p S1 (po_SSlt_SSle _ STC)).
+      rewrite (subtractSortedSlice_In _ _ p Spp (po_SSlt_SSle _ Scc)).
+      rewrite Mpp, Mcc, MTC, !RefTheory.sortN_In.
+      assert (HK : forall d, In d (known_set lay tsU) <->
+                             In d (known_set lay tsA) \/ In d (known_set lay tsB)).
+      { intros d. rewrite !RefTheory.known_set_In. split.
+        - intros (x & Hx & Hd). apply HtsU in Hx as [Hx|Hx]; [left|right]; exists x; auto.
+        - intros [(x & Hx & Hd)|(x & Hx & Hd)]; exists x; (split; [apply HtsU; auto|exact Hd]). }
+      assert (HKpos : (exists d, In d (known_set lay tsU) /\ p = pos R (fst d) (snd d)) <->
+                      (In p (map (npos R) tsA) \/ In p (map (npos R) tsB)) \/
+                      (In p (computable_pos R lay tsA) \/ In p (computable_pos R lay tsB))).
+      { pose proof (po_known_pos H HO s Hn63 tsA LA p) as KA.
+        pose proof (po_known_pos H HO s Hn63 tsB LB p) as KB. split.
+        - intros (d & Hd & Ep). apply HK in Hd as [Hd|Hd].
+          + assert (Hx : In p (map (npos R) tsA) \/ In p (computable_pos R lay tsA))
+              by (apply KA; exists d; auto). tauto.
+          + assert (Hx : In p (map (npos R) tsB) \/ In p (computable_pos R lay tsB))
+              by (apply KB; exists d; auto). tauto.
+        - intros Hp.
+          assert (Hp' : (In p (map (npos R) tsA) \/ In p (computable_pos R lay tsA)) \/
+                        (In p (map (npos R) tsB) \/ In p (computable_pos R lay tsB))) by tauto.
+          destruct Hp' as [Hp'|Hp'].
+          + apply KA in Hp' as (d & Hd & Ep). exists d. split; [apply HK; auto|exact Ep].
+          + apply KB in Hp' as (d & Hd & Ep). exists d. split; [apply HK; auto|exact Ep]. }
+      rewrite (po_canon_pos_In H HO s tsA), (po_canon_pos_In H HO s tsB),
+        (po_canon_pos_In H HO s tsU).
+      split.
+      - intros [[Hp HnC] HnT].
+        assert (HnK : ~ exists d, In d (known_set lay tsU) /\ p = pos R (fst d) (snd d))
+          by (rewrite HKpos; tauto).
+        assert (Hgen : forall ts, (forall d, In d (known_set lay ts) -> In d (known_set lay tsU)) ->
+                  (exists d, In d (known_set lay ts) /\ is_root_coord lay d = false /\
+                             ~ In (sib_coord d) (known_set lay ts) /\
+                             p = pos R (fst (sib_coord d)) (snd (sib_coord d))) ->
+                  exists d, In d (known_set lay tsU) /\ is_root_coord lay d = false /\
+                            ~ In (sib_coord d) (known_set lay tsU) /\
+                            p = pos R (fst (sib_coord d)) (snd (sib_coord d))).
+        { intros ts Hsub (d & Hd & Hr & _ & Ep). exists d. split; [apply Hsub, Hd|].
+          split; [exact Hr|]. split; [|exact Ep]. intros Hin. apply HnK.
+          exists (sib_coord d). auto. }
+        destruct Hp as [Hp|Hp].
+        + apply (Hgen tsA); [intros d Hd; apply HK; auto|exact Hp].
+        + apply (Hgen tsB); [intros d Hd; apply HK; auto|exact Hp].
+      - intros (d & Hd & Hr & Hn & Ep).
+        assert (HnK : ~ exists d', In d' (known_set lay tsU) /\ p = pos R (fst d') (snd d')).
+        { intros (d' & Hd' & Ep'). apply Hn. rewrite Ep in Ep'.
+          rewrite (po_pos_inj H HO s (sib_coord d) d'); [exact Hd'| | |exact Ep'].
+          - apply (po_proof_coord_is_node H HO s Hn63 tsU LU). apply RefTheory.proof_coords_In.
+            exists d. auto.
+          - exact (po_known_is_node H HO s Hn63 tsU LU d' Hd'). }
+        rewrite HKpos in HnK. split; [split|]; [|tauto|tauto].
+        apply HK in Hd as [Hd|Hd]; [left|right]; exists d;
+          (split; [exact Hd|]; split; [exact Hr|]; split; [|exact Ep]);
+          intros Hin; apply Hn, HK; auto. }
+    rewrite EPC, ETC. f_equal. f_equal; [f_equal|].
+    - symmetry. apply po_hashes_Fv, LS.
+    - rewrite <- (po_canon_hashes_Fv tsU LU).
+      apply (RefTheory.canon_unique_state H HO s tsU (sort_nodes tsU));
+        [apply Permutation_sym, po_sort_nodes_perm|exact LU].
+  Qed.
+End RefVal.
+
+Print Assumptions addproof_spec.
+
+(** G2 for the inputs the oracle expects a client to hold ([exp_cached]) *)
+Corollary addproof_cached {H} (HO : ops H) (s : slots H) (A B U : list H)
+          (hA hB : list H) (tA tB : list N) (pA pB : list H) :
+  ops_ok HO -> N.of_nat (length s) <= 2 ^ 63 -> NoDup (live s) ->
+  NoDup A -> NoDup B -> NoDup U -> (forall h, In h U <-> In h A \/ In h B) ->
+  exp_cached HO (mk_ctx HO s) A = Some (hA, tA, pA) ->
+  exp_cached HO (mk_ctx HO s) B = Some (hB, tB, pB) ->
+  AddProof tA pA tB pB hA hB (N.of_nat (length s)) = exp_cached HO (mk_ctx HO s) U /\
+  exp_cached HO (mk_ctx HO s) U <> None.
+Proof.
+  intros HOK Hn63 Hlive NA NB NU HU EA EB.
+  destruct (cached_is_canonical H HO HOK s A hA tA pA Hlive NA EA) as [PA PermA].
+  destruct (cached_is_canonical H HO HOK s B hB tB pB Hlive NB EB) as [PB PermB].
+  apply (addproof_spec H HO HOK s Hn63 hA hB U tA tB pA pB);
+    [exact (Permutation_NoDup (Permutation_sym PermA) NA)
+    |exact (Permutation_NoDup (Permutation_sym PermB) NB)|exact NU| |exact PA|exact PB].
+  intros h. rewrite HU. split; (intros [Hh|Hh]; [left|right]);
+    first [exact (Permutation_in _ (Permutation_sym PermA) Hh)
+          |exact (Permutation_in _ (Permutation_sym PermB) Hh)
+          |exact (Permutation_in _ PermA Hh)|exact (Permutation_in _ PermB Hh)].
+Qed.
+Print Assumptions addproof_cached.
+
+(** non-vacuity: the proof of [Atom 7; Atom 3] (positions 6, 2) combined with the proof of
+    [Atom 1] (position 8) in the 7-slot forest [ls_ex] *)
+Example addproof_ex :
+  AddProof [6; 2] [Atom 4; Atom 1] [8] [Node (Atom 3) (Atom 4)] [Atom 7; Atom 3] [Atom 1] 7
+    = Some ([Atom 3; Atom 7; Atom 1], [2; 6; 8], [Atom 4]) /\
+  AddProof [6; 2] [Atom 4; Atom 1] [8] [Node (Atom 3) (Atom 4)] [Atom 7; Atom 3] [Atom 1] 7
+    = exp_cached term_ops (mk_ctx term_ops ls_ex) [Atom 1; Atom 3; Atom 7].
+Proof.
+  split; [vm_compute; reflexivity|].
+  apply (addproof_spec term term_ops term_ops_ok ls_ex ex_cc_bound
+           [Atom 7; Atom 3] [Atom 1] [Atom 1; Atom 3; Atom 7]).
+  - apply po_ex_nodup; reflexivity.
+  - apply po_ex_nodup; reflexivity.
+  - apply po_ex_nodup; reflexivity.
+  - intros h. cbn [In]. tauto.
+  - vm_compute. reflexivity.
+  - vm_compute. reflexivity.
+Qed.
+
+(** * 5. G3: [GetProofSubset] *)
+
+(** every member of [a] outside [b] survives the subtraction (no sortedness needed) *)
+Lemma po_subN_keeps : forall fuel a b w, (length a + length b < fuel)%nat ->
+  In w a -> ~ In w b -> In w (subN fuel a b).
+Proof.
+  induction fuel as [|f IH]; intros a b w Hf Ha Hb; [lia|].
+  cbn [subN]. destruct a as [|x a]; [destruct Ha|]. destruct b as [|y b]; [exact Ha|].
+  cbn [length] in Hf.
+  destruct (N.eqb_spec x y) as [Exy|Nxy].
+  - subst y. destruct Ha as [<-|Ha]; [exfalso; apply Hb; left; reflexivity|].
+    apply IH; [lia|exact Ha|]. intros Hin. apply Hb. right. exact Hin.
+  - destruct (x <? y).
+    + destruct Ha as [<-|Ha]; [left; reflexivity|]. right.
+      apply IH; [cbn [length]; lia|exact Ha|exact Hb].
+    + apply IH; [cbn [length]; lia|exact Ha|]. intros Hin. apply Hb. right. exact Hin.
+Qed.
+
+(** G3, failure: a requested position that is not a target of the proof is an error - for any
+    inputs whatsoever *)
+Theorem subset_uncovered {H} (HO : ops H) (ts : list N) (pf hashes : list H) (wants : list N) (n : N) :
+  (exists w, In w wants /\ ~ In w ts) -> GetProofSubset HO ts pf hashes wants n = None.
+Proof.
+  intros (w & Hw & Hn). unfold GetProofSubset. cbv zeta.
+  assert (Hin : In w (subtractSortedSlice (sortN wants) (sortN ts))).
+  { apply po_subN_keeps; [lia|apply RefTheory.sortN_In, Hw|].
+    intros Hin. apply (proj1 (RefTheory.sortN_In _ _)) in Hin. exact (Hn Hin). }
+  destruct (subtractSortedSlice (sortN wants) (sortN ts)) as [|a l]; [destruct Hin|]. reflexivity.
+Qed.
+
+Section SubsetGraph.
+  Variable H : Type.
+  Variable HO : ops H.
+  Variable F : N -> H.
+  Local Notation gr := (gr H F).
+
+  Lemma po_index_of_gr w ps : In w ps -> index_of w (gr ps) = Some (F w).
+  Proof.
+    induction ps as [|p ps IH]; intros Hin; [destruct Hin|]. cbn [gr map index_of fst snd].
+    destruct (N.eqb_spec p w) as [->|Hne]; [reflexivity|].
+    destruct Hin as [E|Hin]; [congruence|]. exact (IH Hin).
+  Qed.
+
+  Lemma po_all_someH_gr ps wants : (forall w, In w wants -> In w ps) ->
+    all_someH (map (fun w => index_of w (gr ps)) wants) = Some (map F wants).
+  Proof.
+    induction wants as [|w wants IH]; intros Hall; [reflexivity|]. cbn [map all_someH].
+    rewrite (po_index_of_gr w ps (Hall w (or_introl eq_refl))), IH; [reflexivity|].
+    intros v Hv. apply Hall. right. exact Hv.
+  Qed.
+
+  (** [GetProofSubset] on graphs *)
+  Theorem subset_graph (n : N) (ts wants pp calc IK wpp wcalc : list N) (cands : list H) (rows : list N) :
+    NoDup ts -> NoDup wants -> (forall w, In w wants -> In w ts) ->
+    calculateHashes HO true n (Some (map F ts)) ts (map F pp) = Ok (gr IK, cands, rows) ->
+    SSlt IK ->
+    ProofPositions_fast (sortN ts) n (TreeRows n) = (pp, calc) -> SSlt pp ->
+    ProofPositions_fast (sortN wants) n (TreeRows n) = (wpp, wcalc) -> SSlt wpp ->
+    (forall p, In p wpp -> In p IK \/ In p pp) ->
+    GetProofSubset HO ts (map F pp) (map F ts) wants n = Some (map F wants, wants, map F wpp).
+  Proof.
+    intros Nts Nw Hsub Ecalc SIK Epp Spp Ewpp Swpp Hcov.
+    pose proof (pps_sortN_NoDup_SSlt ts Nts) as Sts.
+    pose proof (pps_sortN_NoDup_SSlt wants Nw) as Sw.
+    unfold GetProofSubset. cbv zeta.
+    (* the coverage test *)
+    assert (E0 : subtractSortedSlice (sortN wants) (sortN ts) = []).
+    { rewrite subtractSortedSlice_spec; [|exact Sw|apply po_SSlt_SSle, Sts].
+      apply RefTheory.filter_none. intros x Hx. apply Bool.negb_false_iff, RefTheory.memN_In.
+      apply RefTheory.sortN_In, Hsub. apply (proj1 (RefTheory.sortN_In _ _)) in Hx. exact Hx. }
+    rewrite E0. cbn [length Nat.eqb negb].
+    unfold same_len. rewrite map_length, Nat.eqb_refl. cbn [negb].
+    rewrite Ecalc, Epp. rewrite map_length, Nat.ltb_irrefl.
+    (* the lists *)
+    rewrite !(po_zip_gr H F).
+    rewrite (po_sortK_gr H F ts Nts).
+    rewrite (po_sortK_gr H F IK (pps_SSlt_NoDup _ SIK)), (po_sortN_sorted_id IK SIK).
+    rewrite (po_sortK_gr H F pp (pps_SSlt_NoDup _ Spp)), (po_sortN_sorted_id pp Spp).
+    rewrite (po_merge_gr H F IK pp SIK Spp).
+    destruct (mergeSortedSlices_spec IK pp SIK Spp) as [SALL MALL].
+    set (ALL := mergeSortedSlices IK pp) in *.
+    rewrite (po_subset_gr H F (sortN ts) (sortN wants) Sts (po_SSlt_SSle _ Sw)).
+    assert (E1 : filter (fun x => memN x (sortN wants)) (sortN ts) = sortN wants).
+    { apply pps_SSlt_ext; [apply po_filter_SS, Sts|exact Sw|]. intros x.
+      rewrite filter_In, RefTheory.memN_In, !RefTheory.sortN_In. split; [tauto|].
+      intros Hx. split; [apply Hsub, Hx|exact Hx]. }
+    rewrite E1, (po_gr_fst H F), Ewpp.
+    rewrite (po_subset_gr H F ALL wpp SALL (po_SSlt_SSle _ Swpp)).
+    assert (E2 : filter (fun x => memN x wpp) ALL = wpp).
+    { apply pps_SSlt_ext; [apply po_filter_SS, SALL|exact Swpp|]. intros x.
+      rewrite filter_In, RefTheory.memN_In, MALL. split; [tauto|].
+      intros Hx. split; [apply Hcov, Hx|exact Hx]. }
+    rewrite E2, (po_gr_length H F), Nat.eqb_refl. cbn [negb].
+    rewrite (po_all_someH_gr (sortN wants) wants);
+      [|intros w Hw; apply RefTheory.sortN_In, Hw].
+    rewrite (po_gr_snd H F). reflexivity.
+  Qed.
+End SubsetGraph.
+
+Section SubsetRef.
+  Variable H : Type.
+  Variable HO : ops H.
+  Hypothesis HOK : ops_ok HO.
+  Hypothesis hash_nz : forall a b, NZ HO (op_hash2 HO a b).
+  Variable s : slots H.
+  Hypothesis Hlive_nz : forall h, In (Some h) s -> NZ HO h.
+  Hypothesis Hn63 : N.of_nat (length s) <= 2 ^ 63.
+
+  Local Notation n := (N.of_nat (length s)).
+  Local Notation total := (TreeRows (N.of_nat (length s))).
+  Local Notation R := (rows_of (num_leaves s)).
+  Local Notation lay := (layout HO s).
+  Local Notation Fv := (Fv H HO s).
+
+  (** positions among the positions of [tsn] are positions of nodes of [tsn] *)
+  Lemma po_pos_nodes (tsn : list (node H)) : forall wants,
+    (forall w, In w wants -> In w (map (npos R) tsn)) ->
+    exists wn, map (npos R) wn = wants /\ (forall x, In x wn -> In x tsn).
+  Proof.
+    induction wants as [|w wants IH]; intros Hall; [exists []; split; [reflexivity|intros x []]|].
+    destruct (IH (fun v Hv => Hall v (or_intror Hv))) as (wn & Ewn & Hwn).
+    destruct (proj1 (in_map_iff _ _ _) (Hall w (or_introl eq_refl))) as (x & Ex & Hx).
+    exists (x :: wn). split; [cbn [map]; rewrite Ex, Ewn; reflexivity|].
+    intros y [<-|Hy]; [exact Hx|exact (Hwn y Hy)].
+  Qed.
+
+  Lemma po_find_leaves_nodes : forall wn : list (node H),
+    (forall x, In x wn -> exists h, find_leaf HO lay h = Some x) ->
+    find_leaves HO lay (map (@nhash H) wn) = Some wn.
+  Proof.
+    induction wn as [|x wn IH]; intros Hall; [reflexivity|].
+    apply (RefTheory.find_leaves_cons H HO). exists x, wn.
+    split; [|split; [apply IH; intros y Hy; apply Hall; right; exact Hy|reflexivity]].
+    destruct (Hall x (or_introl eq_refl)) as [h Hh].
+    destruct (find_leaf_spec H HO HOK _ _ _ Hh) as (_ & _ & ->). exact Hh.
+  Qed.
+
+  (** G3, success.  [(ts, pf)]: the targets (in request order) and the canonical proof of the
+      duplicate-free request [hs] of live leaves; [wants]: duplicate-free positions among [ts], in
+      any order.  [GetProofSubset] returns the hashes of the wanted leaves in the order of
+      [wants], [wants] itself, and the canonical proof of the wanted leaves. *)
+  Theorem subset_spec (hs : list H) (ts : list N) (pf : list H) (wants : list N) :
+    NoDup hs -> exp_prove HO (mk_ctx HO s) hs = Some (ts, pf) ->
+    NoDup wants -> (forall w, In w wants -> In w ts) ->
+    exists hw pw,
+      exp_prove HO (mk_ctx HO s) hw = Some (wants, pw) /\
+      hw = map Fv wants /\ (forall h, In h hw -> In h hs) /\
+      GetProofSubset HO ts pf hs wants n = Some (hw, wants, pw).
+  Proof.
+    intros Nhs EP Nw Hsub. unfold exp_prove in EP. cbn [mk_ctx clay crows] in EP.
+    destruct (find_leaves HO lay hs) as [tsn|] eqn:Fhs; [|discriminate].
+    injection EP as <- <-.
+    destruct (cc_find_leaves_facts HO s hs tsn HOK Nhs Fhs) as (L & Fl & Nt & Eh & InT).
+    destruct (po_pos_nodes tsn wants Hsub) as (wn & Ewn & Hwn).
+    assert (Lw : forall x, In x wn -> In x lay) by (intros x Hx; apply L, Hwn, Hx).
+    assert (Flw : forall x, In x wn -> nleaf x = true) by (intros x Hx; apply Fl, Hwn, Hx).
+    assert (Nwn : NoDup wn) by (apply (NoDup_map_inv (npos R)); rewrite Ewn; exact Nw).
+    assert (Fwn : find_leaves HO lay (map (@nhash H) wn) = Some wn).
+    { apply po_find_leaves_nodes. intros x Hx. apply Hwn, InT in Hx as (h & _ & Hh). exists h. exact Hh. }
+    exists (map (@nhash H) wn), (canon_proof_hashes HO R lay wn).
+    split; [|split; [|split]].
+    - unfold exp_prove. cbn [mk_ctx clay crows]. rewrite Fwn, Ewn. reflexivity.
+    - rewrite (po_hashes_Fv H HO s wn Lw), Ewn. reflexivity.
+    - intros h Hh. apply in_map_iff in Hh as (x & <- & Hx). rewrite <- Eh. apply in_map, Hwn, Hx.
+    - (* the verifier's intermediate positions *)
+      pose proof (rt_valid H HO s tsn L Fl Nt) as Hval.
+      destruct (cc_valid_facts n Hn63 (map ncrd tsn) Hval) as (HK1 & _).
+      destruct (cc_Ks_spec n Hn63 (map ncrd tsn) Hval) as [HKs_sorted HKs_mem].
+      destruct (calc_complete_c H HO (Wv H HO s) n Hn63 (map ncrd tsn) (Some hs)
+                  (canon_proof_hashes HO R lay tsn) [] Hval)
+        as (inter & cands & Ecalc & _ & _ & Hkeys & HW).
+      { intros c h h' Hc Hr. exact (vc_step H HO hash_nz s Hn63 c h h' (HK1 c Hc) Hr). }
+      { cbn [cc_hs]. rewrite <- Eh. exact (vc_targets_W H HO s Hlive_nz tsn L Fl). }
+      { exact (vc_proof_W H HO hash_nz s Hlive_nz Hn63 tsn L Fl Nt). }
+      rewrite app_nil_r, <- (po_targets_g H s tsn) in Ecalc.
+      set (IK := map fst inter) in *.
+      assert (Egr : inter = gr H Fv IK).
+      { apply po_graph_eq. intros e He. rewrite Forall_forall in HW.
+        destruct (HW e He) as (x & Hx & Ep & Ehx & _).
+        rewrite Ep, <- (rf_npos H s x), (po_Fv_node H HO s x Hx). symmetry. exact Ehx. }
+      assert (SIK : SSlt IK) by (rewrite Hkeys; apply pps_clt_map, HKs_sorted).
+      assert (MIK : forall p, In p IK <-> exists d, In d (known_set lay tsn) /\ p = pos R (fst d) (snd d)).
+      { intros p. rewrite Hkeys, in_map_iff. split.
+        - intros (c & <- & Hc). apply HKs_mem, (rt_K H HO s Hn63 tsn L) in Hc as (d & Hd & ->).
+          exists d. split; [exact Hd|]. symmetry. apply (po_pos_g H s).
+        - intros (d & Hd & ->). exists (cN d). split; [symmetry; apply (po_pos_g H s)|].
+          apply HKs_mem, (rt_K H HO s Hn63 tsn L). exists d. auto. }
+      rewrite Egr in Ecalc.
+      rewrite (po_canon_hashes_Fv H HO s Hn63 tsn L), (po_canon_hashes_Fv H HO s Hn63 wn Lw).
+      rewrite (po_hashes_Fv H HO s wn Lw), Ewn.
+      rewrite <- Eh, (po_hashes_Fv H HO s tsn L).
+      rewrite <- Eh, (po_hashes_Fv H HO s tsn L), (po_canon_hashes_Fv H HO s Hn63 tsn L) in Ecalc.
+      apply (subset_graph H HO Fv n (map (npos R) tsn) wants (canon_proof_pos R lay tsn)
+               (computable_pos R lay tsn) IK (canon_proof_pos R lay wn) (computable_pos R lay wn)
+               cands _ (po_targets_NoDup H HO s tsn L Nt) Nw Hsub Ecalc SIK
+               (po_pp_both_fast H HO s Hn63 tsn L Fl Nt) (po_canon_pos_SSlt H HO s Hn63 tsn L)).
+      + rewrite <- Ewn. exact (po_pp_both_fast H HO s Hn63 wn Lw Flw Nwn).
+      + exact (po_canon_pos_SSlt H HO s Hn63 wn Lw).
+      + intros p Hp. apply (po_canon_pos_In H HO s wn) in Hp as (d & Hd & Hr & _ & ->).
+        assert (HdK : In d (known_set lay tsn)) by (exact (RefTheory.known_set_mono H lay wn tsn Hwn d Hd)).
+        destruct (mem_coord (sib_coord d) (known_set lay tsn)) eqn:E.
+        * left. apply MIK. exists (sib_coord d). split; [apply RefTheory.mem_coord_In, E|reflexivity].
+        * right. apply (po_canon_pos_In H HO s tsn). exists d. split; [exact HdK|].
+          split; [exact Hr|]. split; [apply RefTheory.mem_coord_false, E|reflexivity].
+  Qed.
+End SubsetRef.
+
+Print Assumptions subset_spec.
+Print Assumptions subset_uncovered.
+
+(** G3: the restriction fails exactly when a requested position is not covered *)
+Corollary subset_error_iff {H} (HO : ops H) (s : slots H) (hs : list H) (ts : list N) (pf : list H)
+          (wants : list N) :
+  ops_ok HO -> (forall a b, NZ HO (op_hash2 HO a b)) -> (forall h, In (Some h) s -> NZ HO h) ->
+  N.of_nat (length s) <= 2 ^ 63 ->
+  NoDup hs -> exp_prove HO (mk_ctx HO s) hs = Some (ts, pf) -> NoDup wants ->
+  (GetProofSubset HO ts pf hs wants (N.of_nat (length s)) = None <->
+   exists w, In w wants /\ ~ In w ts).
+Proof.
+  intros HOK Hnz Hlive Hn63 Nhs EP Nw. split; [|apply subset_uncovered].
+  intros Enone. destruct (forallb (fun w => memN w ts) wants) eqn:E.
+  - exfalso. rewrite forallb_forall in E.
+    destruct (subset_spec H HO HOK Hnz s Hlive Hn63 hs ts pf wants Nhs EP Nw)
+      as (hw & pw & _ & _ & _ & Es); [|congruence].
+    intros w Hw. apply RefTheory.memN_In, E, Hw.
+  - assert (Hex : exists w, In w wants /\ memN w ts = false).
+    { clear - E. induction wants as [|w wants IH]; [discriminate|]. cbn [forallb] in E.
+      destruct (memN w ts) eqn:Em.
+      - destruct (IH E) as (v & Hv & Ev). exists v. split; [right; exact Hv|exact Ev].
+      - exists w. split; [left; reflexivity|exact Em]. }
+    destruct Hex as (w & Hw & Em). exists w. split; [exact Hw|apply po_memN_false, Em].
+Qed.
+Print Assumptions subset_error_iff.
+
+(** non-vacuity: from the proof of [Atom 7; Atom 4; Atom 3] (positions 6, 3, 2; proof [Atom 1])
+    in [ls_ex], restrict to positions 3 and 6, in that order; position 8 is not covered *)
+Example subset_ex :
+  GetProofSubset term_ops [6; 3; 2] [Atom 1] [Atom 7; Atom 4; Atom 3] [3; 6] 7
+    = Some ([Atom 4; Atom 7], [3; 6], [Atom 3; Atom 1]) /\
+  exp_prove term_ops (mk_ctx term_ops ls_ex) [Atom 4; Atom 7] = Some ([3; 6], [Atom 3; Atom 1]) /\
+  GetProofSubset term_ops [6; 3; 2] [Atom 1] [Atom 7; Atom 4; Atom 3] [3; 8] 7 = None.
+Proof. repeat split; vm_compute; reflexivity. Qed.
+
+Example subset_ex_by_thm :
+  exists hw pw,
+    exp_prove term_ops (mk_ctx term_ops ls_ex) hw = Some ([3; 6], pw) /\
+    GetProofSubset term_ops [6; 3; 2] [Atom 1] [Atom 7; Atom 4; Atom 3] [3; 6] 7
+      = Some (hw, [3; 6], pw).
+Proof.
+  destruct (subset_spec term term_ops term_ops_ok ex_cc_hash_nz ls_ex ex_cc_live_nz ex_cc_bound
+              [Atom 7; Atom 4; Atom 3] [6; 3; 2] [Atom 1] [3; 6])
+    as (hw & pw & E1 & _ & _ & E2).
+  - apply po_ex_nodup; reflexivity.
+  - vm_compute. reflexivity.
+  - repeat constructor; cbn [In]; lia.
+  - intros w. cbn [In]. tauto.
+  - exists hw, pw. split; [exact E1|exact E2].
+Qed.
+
+Example subset_ex_uncovered :
+  GetProofSubset term_ops [6; 3; 2] [Atom 1] [Atom 7; Atom 4; Atom 3] [3; 8] 7 = None.
+Proof. apply subset_uncovered. exists 8. cbn [In]. split; [tauto|lia]. Qed.
+
+(** the duplicate-freeness hypotheses cannot be dropped *)
+Example po_dup_witnesses :
+  (* desired position 3 twice: the sibling 2 is not reported *)
+  GetMissingPositionsFn 7 [] [3; 3] = [8] /\
+  exp_missing term_ops (mk_ctx term_ops ls_ex) [] [Atom 4; Atom 4] = Some [2; 8] /\
+  (* target 2 twice in one input *)
+  AddProof [2; 2] [Atom 4; Atom 1] [8] [Node (Atom 3) (Atom 4)] [Atom 3; Atom 3] [Atom 1] 7
+    = Some ([Atom 3; Atom 3; Atom 1], [2; 2; 8], [Atom 4; Atom 1]) /\
+  (* wanted position 3 twice, covered *)
+  GetProofSubset term_ops [6; 3; 2] [Atom 1] [Atom 7; Atom 4; Atom 3] [3; 3] 7 = None.
+Proof. repeat split; vm_compute; reflexivity. Qed.
